@@ -11,7 +11,13 @@ codecs:  uid      base-N, gen_uniqueid, _fmt_unique_name / app_name / app_unique
          rule     RuleMgr._filenameify / get_rule (+ each of the three regexes on malformed names)
          event    <Class>.to_data / from_data, trace.{app,server}.zk.publish / TraceLoop._process_events
          payload  zkutils.put (-> _payload) / get_with_metadata
-         ldap     Application / CellAllocation / Partition .to_entry / _remove_empty / .from_entry
+         ldap     Application / CellAllocation / Partition .to_entry / _remove_empty / .from_entry;
+                  the update path: the REAL LdapObject.update / Admin.update / Admin.remove over an in-memory
+                  directory behind the ldap3 connection interface (`_MemConn`, the assumed directory behaviour =
+                  `fetch` / `applyMods` of TmVerif/Codec/LdapUpdate.lean); per call the attributes read, the entry
+                  returned, the modify request sent and the entry stored afterwards are compared with the model
+                  (lines ldapkeys / ldapfetch / ldapdiff / ldapapply / ldapupd / ldapobjupd / ldaprm); two
+                  independent monitors of the update law (object level through from_entry, entry level as sets)
 """
 import collections
 import json
@@ -32,7 +38,11 @@ RULE = {
            'and through the Lean model; non-trivial item = contains a separator-adjacent character, a boundary '
            'number, an empty/omitted optional field or a keyed list of >= 2 entries; a case is NON-TRIVIAL when '
            'it has >= 5 such items and >= 1 near-collision pair (values differing only around a separator); '
-           'distinct = distinct case hash',
+           'distinct = distinct case hash; every ldap case also carries 3-7 updates of a stored entry through the real '
+           'Admin.update (partial objects: fields unchanged / changed / None / [] / new, keyed lists grown, shrunk, '
+           'altered, reordered; raw entries: names differing in case, option variants, values permuted, repeated, '
+           'same length with every new value among the old ones and vice versa, [] for present and absent attributes, '
+           'updates that change nothing), each tied to the Lean model of the update path',
 }
 
 CODECS = ['uid', 'rule', 'event', 'payload', 'ldap']
